@@ -371,6 +371,21 @@ def compare_codec(res, reqs, mod, imp, summary):
     return dis
 
 
+def ext_variant(cls, cn, value_of):
+    """finding 4 (CanFdMessage64 / CanFdErrorFrame64: hasExtData() consults the stale objectSize) concerns objects that announce
+    extended frame data (extDataOffset != 0).  A failure of an object WITHOUT it is something else and gets a kind of its own,
+    so that the listed finding does not cover it.  value_of(field index) -> bytes or None"""
+    if cn not in ('CanFdMessage64', 'CanFdErrorFrame64') or cn not in cls:
+        return ''
+    idx = next((i for i, f in enumerate(cls[cn]['fields']) if f['name'] == 'extDataOffset'), None)
+    rdx = next((i for i, f in enumerate(cls[cn]['fields']) if f['name'] == 'reservedCanFdExtFrameData'), None)
+    if idx is None or rdx is None:
+        return ''
+    v, rv = value_of(idx), value_of(rdx)
+    # (the reserved tail belongs to the extended frame data: it is written only when hasExtData() says so)
+    return ':without-ext-data' if ((v is None or int.from_bytes(v, 'little') == 0) and not rv) else ''
+
+
 def framing_oracle(reqs, imp, summary, padobs):
     """C03 evaluated directly on the implementation's answers -> list of failures (class, kind, detail, request)"""
     cls = {c['name']: c for c in summary['classes']}
@@ -383,9 +398,11 @@ def framing_oracle(reqs, imp, summary, padobs):
         d = parse_kv(b)
         cn = r.split()[1]
         c = cls[cn]
+        asg = dict(t.split('=', 1) for t in r.split()[2:] if '=' in t)
+        xv = ext_variant(cls, cn, lambda i: bytes.fromhex(asg[str(i)]) if str(i) in asg else None)
         out = bytes.fromhex(d.get('out', ''))
         if d.get('halt') != 'none' or len(out) < 16:
-            fails.append((cn, 'encode-stopped', b[:100], r))
+            fails.append((cn, 'encode-stopped' + xv, b[:100], r))
             continue
         hs = int.from_bytes(out[4:6], 'little')
         osz = int.from_bytes(out[8:12], 'little')
@@ -405,7 +422,7 @@ def framing_oracle(reqs, imp, summary, padobs):
             if any(out[osz:]):
                 fails.append((cn, 'padding-nonzero', out[osz:].hex(), r))
         else:
-            fails.append((cn, 'size-mismatch', 'emitted %d bytes, objectSize field %d' % (len(out), osz), r))
+            fails.append((cn, 'size-mismatch' + xv, 'emitted %d bytes, objectSize field %d' % (len(out), osz), r))
         enc_by_req[(cn, out)] = r
     return fails
 
@@ -413,15 +430,18 @@ def framing_oracle(reqs, imp, summary, padobs):
 def decode_oracle(reqs, imp, summary):
     """decoding an emitted image followed by a trailer consumes exactly the image"""
     fails = []
+    cls = {c['name']: c for c in summary['classes']}
     for r, b in zip(reqs, imp):
         if r.startswith('dec') and r.endswith('ee' * 8) and b.startswith('dec'):
             d = parse_kv(b)
             cn = r.split()[1]
             n = len(r.split()[2]) // 2 - 8
+            od = dict(x.split('=', 1) for x in d.get('obj', []) if '=' in x)
+            xv = ext_variant(cls, cn, lambda i: bytes.fromhex(od[str(i)]) if str(i) in od else None)
             if d.get('halt') != 'none':
-                fails.append((cn, 'decode-stopped', b[:80], r))
+                fails.append((cn, 'decode-stopped', b[:80], r))          # (the dump of a stopped decode says nothing about the variant)
             elif int(d.get('pos', -1)) != n:
-                fails.append((cn, 'consumed-mismatch', 'consumed %s of %d emitted bytes' % (d.get('pos'), n), r))
+                fails.append((cn, 'consumed-mismatch' + xv, 'consumed %s of %d emitted bytes' % (d.get('pos'), n), r))
     return fails
 
 
@@ -506,6 +526,7 @@ def coverage_obligations(pipe, res, summary, regres):
     for n in base['exact']:
         if n not in names:
             res.notes.append('class %s of the baseline no longer exists' % n)
+            res.oblige('K:class-translated:' + n, False, 'class %s of the baseline is no longer among the translated classes (removed, or it no longer has codec bodies of its own)' % n)
             continue
         res.oblige('K:regularCheck:' + n, n in exact, 'regenerated programs of %s no longer satisfy regularCheck' % n)
     for n in names:
@@ -905,7 +926,7 @@ def check_C17(res):
     tables = summary.get('tables', {})
     exe = pipe.harness('codec_harness', ['codec_harness.cpp'])
     drv = lib.driver_exe()
-    if exe is None or not os.path.exists(drv):
+    if exe is None:
         return finish_codec(res)
     rng = random.Random(lib.seed() * 31 + 3)
     codes = list(range(0, 256)) + [256, 257, 65535, 65536, 2 ** 31 - 1, 2 ** 31, 2 ** 32 - 1] + [rng.randrange(0, 2 ** 32) for _ in range(60 if res.tier == 'quick' else 2000)]
@@ -913,13 +934,16 @@ def check_C17(res):
     names = [c['name'] for c in summary['classes']]
     reqs += ['dflt ' + n for n in names]
     reqs += ['enc ' + n + ' ' for n in names if n != 'LogContainer']
-    mod, rc, err = lib.session(drv, reqs)
     imp, rc2, err2 = lib.session(exe, reqs)
-    if len(mod) != len(reqs) or len(imp) != len(reqs):
-        res.oblige('D:sessions', False, 'driver %d, harness %d answers for %d requests %s' % (len(mod), len(imp), len(reqs), err2[-500:]))
+    if lib.model_ok():
+        mod, rc, err = lib.session(drv, reqs)
+    else:
+        mod = None        # no executable model of this tree: the oracle below runs on the implementation alone
+    if (mod is not None and len(mod) != len(reqs)) or len(imp) != len(reqs):
+        res.oblige('D:sessions', False, 'driver %s, harness %d answers for %d requests %s' % (len(mod) if mod is not None else '-', len(imp), len(reqs), err2[-500:]))
         return finish_codec(res)
     res.corr['programs'] = len(names)
-    dis = compare_codec(res, reqs, mod, imp, summary)
+    dis = compare_codec(res, reqs, mod, imp, summary) if mod is not None else []
     # factory answers are compared verbatim by compare_codec (answers differ -> disagreement)
     res.corr['disagreements'] = len(dis)
     res.oblige('D:factory-defaults-correspondence', not dis, '%d disagreements' % len(dis))
@@ -942,6 +966,10 @@ def check_C17(res):
             if t[2] != want:
                 res.violation('factory', 'createObject(%d) yields %s, the format assigns %s' % (code, t[2], want),
                               {'class': want if want != 'none' else t[2], 'failure': 'factory-code', 'code': code, 'request': r})
+            elif want != 'none' and len(t) > 3 and t[3].startswith('type=') and spec.get(int(t[3][5:])) != want:
+                # the object the factory builds for this code (a default-constructed one) carries a code of another class
+                res.violation('ctor', '%s() (built by createObject(%d)) carries type code %s, which the factory maps to %s' % (want, code, t[3][5:], spec.get(int(t[3][5:]), 'nothing')),
+                              {'class': want, 'failure': 'ctor-code', 'code': int(t[3][5:]), 'request': r})
         elif r.startswith('dflt'):
             cn = r.split()[1]
             d = parse_kv(b)
@@ -954,6 +982,27 @@ def check_C17(res):
                 fn = [cls[cn]['fields'][int(i)]['name'] for i in ind]
                 res.violation('defaults', '%s(): members %s depend on previous memory contents' % (cn, fn),
                               {'class': cn, 'failure': 'indeterminate-default', 'fields': fn, 'request': r})
+    # "... is written under that code, and reading it back yields the same class and code": the default object of every creatable
+    # class through the real File, one file per class
+    import filechecks as fc
+    fexe, cexe = fc.build_file_harness(pipe, res)
+    if fexe and cexe:
+        cr = creatable(summary)
+        cases = [fc.Case(rng.choice([0, 1]), 4096, False, [(cn, {})]) for cn in cr]
+        out = fc.run_cases(pipe, res, cases, fexe, cexe, want_model=False)
+        if out is not None:
+            files = [o['file'] if o['file'] is not None else b'' for o in out]
+            rd, _ = fc.read_files(res, files, fexe, want_model=False)
+            for cn, o, a in zip(cr, out, rd or []):
+                res.corr['requests'] += 1
+                d, st, objs = fc.split_read(a)
+                e = o['expected'][0]
+                code = int.from_bytes(e['bytes'][12:16], 'little') if len(e['bytes']) >= 16 else -1
+                if spec.get(code) != cn:
+                    continue          # (the constructor carries a code of another class: reported above as ctor-code)
+                if o['file'] is None or d.get('outcome') != 'ended' or len(objs) != 1 or objs[0][0] != cn:
+                    res.violation('ctor', '%s(): written under code %d, read back as %s' % (cn, code, [x[0] for x in objs] if d.get('outcome') == 'ended' else a[:60]),
+                                  {'class': cn, 'failure': 'default-object-not-read-back', 'code': code, 'config': cases[0].opts(), 'objects': ';; ' + cn})
     # the computed exception lists must be findings too (they are what the theorems exclude)
     for n, t in tables.items():
         if not t['ctorOk']:
@@ -1237,6 +1286,11 @@ def monitor_corr(pipe, res, kind, nseq, maxlen):
                 seqs.append(['new', 'sdlcs:%d' % c, 'w:' + body, 'r:10', 'drop', 'sk:-%d' % back, 'drop', 'held', 'sk:%d' % back, 'r:10'])
                 seqs.append(['new', 'wc:%d:%s' % (c + 4, body[:2 * (c + 4)]), 'wc:%d:%s' % (c + 4, body[:2 * (c + 4)]), 'r:%d' % (c + 5), 'drop',
                              'sk:-%d' % min(back, c + 5), 'drop', 'held', 'sk:%d' % min(back, c + 5), 'r:%d' % (c + 3)])
+    if kind == 'u':
+        # directed: an end declared ahead of the put position, then a write that crosses it (the end then follows the put position)
+        for c in (3, 8, 64):
+            for ahead, ln in ((2, 3), (1, 1), (4, 9), (2, 2)):
+                seqs.append(['new', 'sdlcs:%d' % c, 'w:010203', 'sfs:%d' % (3 + ahead), 'w:' + '0a' * ln, 'r:%d' % (3 + ln), 'r:1', 'sk:-2', 'r:2'])
     corpus = os.path.join(VERIF, 'corpus', kind + 'seq.txt')
     if os.path.exists(corpus):
         seqs = [l.strip().split(';') for l in open(corpus) if l.strip() and not l.startswith('#')] + seqs
@@ -1518,6 +1572,17 @@ def check_C01(res):
     fexe, cexe = fc.build_file_harness(pipe, res)
     if not fexe or not cexe:
         return finish_codec(res)
+    clsd = {c_['name']: c_ for c_ in summary['classes']}
+
+    def xv_case(c, cn):
+        # (finding 4 needs an object that announces extended frame data; see ext_variant)
+        if cn not in ('CanFdMessage64', 'CanFdErrorFrame64'):
+            return ''
+        vs = [ext_variant(clsd, n_, lambda i, a_=a_: a_.get(i)) for n_, a_ in c.objs if n_ in ('CanFdMessage64', 'CanFdErrorFrame64')]
+        di = next((i for i, f in enumerate(clsd[cn]['fields']) if f['name'] == 'data'), None)
+        if any(len(a_.get(di, b'')) > 255 for n_, a_ in c.objs if n_ == cn):
+            return ':data-above-255'        # finding 29: more data bytes than the 8-bit validDataBytes can say
+        return ':without-ext-data' if vs and all(vs) else ''
     rng = random.Random(lib.seed() * 2741 + 1)
     classes = creatable(summary)
     ncases = 3 * len(classes) if res.tier == 'quick' else 40 * len(classes)
@@ -1594,7 +1659,7 @@ def check_C01(res):
                     pending.append((len(reenc), c, i, exp[i]))
                     reenc.append('!enc %s %s' % (objs[i][0], objs[i][1]))
         if kind:
-            key = (cn0, kind)
+            key = (cn0, kind + xv_case(c, cn0))
             if key not in fails or len(c.objs) < len(fails[key][0].objs):
                 fails[key] = (c, a[:300])
     if reenc:
@@ -1603,7 +1668,7 @@ def check_C01(res):
             for (k, c, i, e) in pending:
                 dd = parse_kv(ra[k])
                 if dd.get('halt') != 'none' or bytes.fromhex(dd.get('out', '')) != e['bytes']:
-                    key = (e['class'], 'field-mismatch')
+                    key = (e['class'], 'field-mismatch' + xv_case(c, e['class']))
                     if key not in fails or len(c.objs) < len(fails[key][0].objs):
                         fails[key] = (c, 'object %d read back with a different encoding' % i)
                 else:
@@ -1793,7 +1858,7 @@ def check_C08(res):
     classes = [c for c in creatable(summary) if c in exact]
     g = codecgen_mod().ObjGen(summary, rng)
     cases = []
-    nfiles = 6 if res.tier == 'quick' else 60
+    nfiles = 8 if res.tier == 'quick' else 64
     for k in range(nfiles):
         lv = [0, 1, 6, 9][k % 4]
         cs = rng.choice([16, 40, 64, 100])
@@ -1805,6 +1870,19 @@ def check_C08(res):
             objs.append((cn, a))
         if k % 3 == 0:
             objs.insert(1, ('AppText', {next(i for i, f in enumerate(g.cls['AppText']['fields']) if f['name'] == 'text'): bytes(rng.randrange(32, 127) for _ in range(rng.choice([5, 37, 90])))}))
+        # an object of a class with layout variants (older versions are shorter than the class default: the parser seeks back behind
+        # them), as the last object and in the middle
+        variants = [(cn, fi, v) for cn in ('EthernetStatus', 'LinMessage2', 'LinMessage', 'LinSendError2', 'CanErrorFrame') if cn in creatable(summary) and cn in g.cls
+                    for fi in (g.cls[cn].get('shapeFields') or []) if g.cls[cn]['fields'][fi]['kind'][0] == 'num'
+                    and g.cls[cn]['fields'][fi]['name'] in ('apiMajor', 'reservedLinMessage2_present', 'reservedLinSendError2_present', 'length')
+                    for v in ((0, 1) if g.cls[cn]['fields'][fi]['name'].endswith('_present') else (0, 1, 2, 3))]      # (a bool member holds 0 or 1)
+        if variants:
+            cn, fi, v = variants[k % len(variants)]
+            a = fc.api_object(g, summary, cn, rng)
+            a[fi] = codecgen_mod().le(v, g.cls[cn]['fields'][fi]['kind'][1])
+            objs.append((cn, a))
+            if k % 2:
+                objs.insert(1, (cn, dict(a)))
         cases.append(fc.Case(lv, cs, k % 2 == 0, objs))
     out = fc.run_cases(pipe, res, cases, fexe, cexe)
     if out is None:
@@ -1832,6 +1910,7 @@ def check_C08(res):
     fails = {}
     # expected: objects wholly contained in completely stored containers
     full = {}
+    reenc, pend = [], []
     for (ci, vn, k, n), f, a, ma in zip(meta, files, r, mr):
         res.corr['requests'] += 1
         if not fc.compare_read(summary, ma, a):
@@ -1876,11 +1955,25 @@ def check_C08(res):
                 fails.setdefault('wrong-object-count', (ci, vn, k, 'delivered %d objects, %d have all their fields in completely stored containers' % (len(objs), exp_n)))
             for j, (cn, dump) in enumerate(objs[:exp_n]):
                 e = o['expected'][j]
-                if cn != e['class'] or fc.mask_indet(summary, cn, dump) != fc.mask_indet(summary, cn, e['dump']):
+                if cn != e['class']:
                     fails.setdefault('modified-object', (ci, vn, k, 'object %d (%s) differs from the written one' % (j, cn)))
                     break
+                if fc.mask_indet(summary, cn, dump) != fc.mask_indet(summary, cn, e['dump']):
+                    # members outside the object's variant (e.g. apiMajor, which is not in the file) do not round-trip: decided
+                    # below by comparing encodings, as in C01
+                    pend.append((len(reenc), ci, vn, k, j, cn, e['bytes']))
+                    reenc.append('!enc %s %s' % (cn, dump))
             if d.get('badeof'):
                 fails.setdefault('no-end-indication', (ci, vn, k, a[:80]))
+    if reenc:
+        uniq = list(dict.fromkeys(reenc))
+        ra, rc, err = lib.psession(cexe, uniq)
+        if len(ra) == len(uniq):
+            enc_of = dict(zip(uniq, ra))
+            for (qi, ci, vn, k, j, cn, want) in pend:
+                dd = parse_kv(enc_of[reenc[qi]])
+                if dd.get('halt') != 'none' or bytes.fromhex(dd.get('out', '')) != want:
+                    fails.setdefault('modified-object', (ci, vn, k, 'object %d (%s) is read back with a different encoding than the written one' % (j, cn)))
     # monotonicity
     last = {}
     for (ci, vn, k, n), a in zip(meta, r):
@@ -2090,6 +2183,13 @@ def check_C10(res):
         for osz in (0, 1, 15, 16, 17, 31, 32, 100, 2 ** 15, 2 ** 16 - 1, 2 ** 31 - 1, 2 ** 31, 2 ** 31 + 16, 2 ** 32 - 16, 2 ** 32 - 1):
             stream = tail_obj + struct.pack('<IHHII', 0x4A424F4C, 16, 1, osz, code) + bytes(rng.choice([0, 8, 40])) + tail_obj + tail_obj
             files.append(wrap_stream(stream, rng.choice([64, 131072]))); kinds.append('unknown-type-size:%d:%d' % (code, osz))
+    # a corrupt base header as a whole (e.g. a zero-filled tail behind a signature): every combination of boundary values of header
+    # size, object size and type (known, unknown), not first in the stream, with and without data behind it
+    for hs in (0, 1, 15, 16, 17, 32, 0xffff):
+        for osz in (0, 1, 15, 16, 17, 31, 32, 48):
+            for code in (0, 1, 65, 200):
+                stream = tail_obj + struct.pack('<IHHII', 0x4A424F4C, hs, 1, osz, code) + bytes(rng.choice([0, 16, 40])) + (tail_obj if rng.random() < 0.7 else b'')
+                files.append(wrap_stream(stream, rng.choice([64, 131072]))); kinds.append('header-fields:%d:%d:%d' % (hs, osz, code))
     decoder_safety(res, pipe, summary, rng)
     os.environ['VERIF_CAP'] = str(256 * 1024 * 1024)
     r, mr = fc.read_files(res, files, fexe)
@@ -2223,6 +2323,8 @@ def classify_hostile(f, a, ma, kind=''):
         return oc + ':declared-size-smaller-than-default-layout:' + kind.split(':')[1]
     if kind.startswith('unknown-type-size'):
         return oc + ':unknown-type-object-with-declared-size-' + ('above-2^31' if int(kind.split(':')[2]) >= 2 ** 31 else 'small')
+    if kind.startswith('header-fields'):
+        return oc + ':corrupt-base-header'
     # walk the containers
     pos = 144
     stream = b''
@@ -2614,10 +2716,16 @@ def tsan_stress(res, pipe, summary, exact):
     classes = [c for c in creatable(summary) if c in exact]
     cases = fc.gen_cases(summary, rng, 'quick', classes, classes, 30 if res.tier == 'quick' else 300)
     cases = [c for c in cases if c.objs]
+    # the classes with layout variants (their codecs take other paths through the stream classes: seeks, filler of other lengths)
+    irr = [c for c in ('SerialEvent', 'EthernetStatus', 'LinMessage2', 'LinMessage', 'LinSendError2', 'CanErrorFrame', 'CanErrorFrameExt', 'CanMessage2',
+                       'FlexRayVFrReceiveMsgEx') if c in creatable(summary)]
+    vc = [c for c in fc.gen_cases(summary, rng, 'quick', irr, classes, 0) if c.objs and c.cs == 7]
+    cases += vc if res.tier == 'thorough' else rng.sample(vc, min(len(vc), 24))
     for c in cases:
         c.cs = rng.choice([7, 64, 4096])
     reports = 0
     nreq = 0
+    g0 = codecgen_mod().ObjGen(summary, rng)
     for pace in (0, 200, 2000):
         env = dict(fc.fenv())
         env.update({'VERIF_PACE_US': str(pace), 'TSAN_OPTIONS': 'halt_on_error=1 exitcode=66 report_signal_unsafe=0'})
@@ -2626,6 +2734,19 @@ def tsan_stress(res, pipe, summary, exact):
         nreq += len(wreq)
         files = [x.split('out=')[1] for x in w if x.startswith('writefile out=')]
         bad = [(q, x) for q, x in zip(wreq, w) if not x.startswith('writefile out=')]
+        # state that is shared by every session of a process (function-local statics and the like) is touched first by the first
+        # session: a few sessions with the rarely used codec paths (15 filler bytes of the single-byte serial event, ...) each in a
+        # process of its own, in the middle of a busy write session
+        if 'SerialEvent' in g0.cls and 'CanMessage' in g0.cls:
+            fl_ = next(i for i, f in enumerate(g0.cls['SerialEvent']['fields']) if f['name'] == 'flags')
+            for flags in (4, 8, 0):
+                for rep in range(2):
+                    q = 'writefile level=%d cs=%d rp=1 %s ;; SerialEvent %d=%s %s' % (1 + rep, 64 if rep else 4096, ' '.join([';; CanMessage'] * (20 + 30 * rep)),
+                                                                                     fl_, codecgen_mod().le(flags, 4).hex(), ' '.join([';; CanMessage'] * 25))
+                    x, rc, err = lib.session(texe, [q], env=env, timeout=600)
+                    nreq += 1
+                    if not (x and x[0].startswith('writefile out=')):
+                        bad.append((q, x[0] if x else 'no answer'))
         r, rc, err2 = lib.psession(texe, ['readfile ' + f for f in files], env=env, timeout=3600)
         nreq += len(files)
         bad += [('readfile ' + f, x) for f, x in zip(files, r) if 'outcome=ended' not in x]
@@ -2828,7 +2949,14 @@ def check_C13(res):
                 op = rng.choice(['r', 'r', 'r', 'r', 'oi', 'oo', 'om', 'c', 'd'])
             else:
                 op = rng.choice(['w', 'w', 'w', 'oo', 'oi', 'ou', 'c', 'd'])
-            ops.append(op)
+            if op in ('c', 'd') and state in ('in', 'out') and rng.random() < 0.3:
+                ops.append('z')          # a pause: the workers reach whatever they block on before the session is ended
+            shown = op
+            if op == 'oo' and rng.random() < 0.4:
+                shown = rng.choice(['ob', 'ot'])      # further openmode bits
+            elif op == 'oi' and rng.random() < 0.3:
+                shown = 'ib'
+            ops.append(shown)
             if op == 'oi' and state == 'closed' and not opened:
                 state = 'in'; opened = True
             elif op == 'oo' and state == 'closed' and not opened:
